@@ -249,11 +249,13 @@ func (k Keeper) LiquidateBorrows(ctx sdk.Context, offsetCounterId uint64) error 
 		start, end = types.GetSliceStartEndForLiquidations(len(borrowIDs), int(liquidationOffsetHolder.CurrentOffset), int(params.LiquidationBatchSize))
 	}
 	newBorrowIDs := borrowIDs[start:end]
-	for l := range newBorrowIDs {
-		err := k.LiquidateIndividualBorrow(ctx, newBorrowIDs[l], "", false)
-		if err != nil {
-			return err
-		}
+	for _, borrowID := range newBorrowIDs {
+		borrowID := borrowID
+		// each borrow is one all-or-nothing step (like a vault in LiquidateVaults): a failing
+		// borrow leaves no partial writes behind and the remaining borrows are still processed
+		_ = utils.ApplyFuncIfNoError(ctx, func(ctx sdk.Context) error {
+			return k.LiquidateIndividualBorrow(ctx, borrowID, "", false)
+		})
 	}
 	liquidationOffsetHolder.CurrentOffset = uint64(end)
 	liquidationOffsetHolder.AppId = offsetCounterId
